@@ -23,14 +23,16 @@ theorem qc_sub_fragments_is_source (orig : Fragment) (subs : List Fragment) :
   · simp only [ImpSmall.length_enumerate, ImpSmall.length_slice_none_neg_one, ImpSmall.length_rangeUp, Int.ofNat_eq_natCast]
       <;> omega
   · intro k h1 h2 s
-    obtain ⟨ac, oc, pg⟩ := s
+    rw [ImpSmall.QSt.eta s]
     simp (disch := omega) only [ImpSmall.getElem_enumerate, ImpSmall.getElem_slice_none_neg_one, ImpSmall.getElem_rangeUp,
       Int.zero_add, ImpSmall.pyGet_natCast, ImpSmall.pyGet_natCast_succ, ImpSmall.ok_bind, ImpSmall.ite_ok_bind]
     rfl
   obtain ⟨h1, h2, h3⟩ := ImpSmall.qc_loop_counts subs
   generalize List.foldl _ _ (ImpSmall.consPairs (stableSort lexLe subs)) = S at h1 h2 h3 ⊢
-  obtain ⟨ac, oc, pg⟩ := S
-  dsimp only at h1 h2 h3
+  rw [ImpSmall.QSt.eta S]
+  generalize S.abut = ac at h1 ⊢
+  generalize S.over = oc at h2 ⊢
+  generalize S.pairs = pg at h3 ⊢
   simp only [ImpSmall.ok_bind, ImpSmall.ite_ok_bind]
   -- `for frag_a, frag_b, g in pairs_with_gaps: msg += …`
   rw [ImpSmall.forIn_pure (fun _ _ => true)]
